@@ -161,6 +161,8 @@ class Harness:
                     out["inconclusive"].append("solver said %s on: %s" % (r, name[6:]))
             else:
                 out["covers"][name[7:]] = r
+                if r == "sat":
+                    out.setdefault("cover_models", {})[name[7:]] = m
                 if r != "sat":
                     out["inconclusive"].append("cover witness not reachable: " + name[7:])
         if out["violations"]:
